@@ -1512,6 +1512,9 @@ func (v *VMValue) ComputedExecute(ctx *Context, detail *BufferSpan) *VMValue {
 		vm.evaluate()
 	}
 
+	if verifOn {
+		verifYield(verifSiteSubReturn)
+	}
 	if vm.Error != nil {
 		ctx.Error = vm.Error
 		return nil
@@ -1604,6 +1607,9 @@ func (v *VMValue) FuncInvokeRaw(ctx *Context, params []*VMValue, useUpCtxLocal b
 		vm.evaluate()
 	}
 
+	if verifOn {
+		verifYield(verifSiteSubReturn)
+	}
 	if vm.Error != nil {
 		ctx.Error = vm.Error
 		return nil
